@@ -96,6 +96,10 @@ def queries(tier):
             qs.append(Query("ws-reassemble-late-receiver-%dparked-%s" % (npk, "complete" if comp else "incomplete"), "c16/wsframe.c", tus=["core/list.c"],
                             env=WENV + ["env_msg.c"], defs={"LATERECV": 1, "NPARKED": npk, "COMPLETE": comp, "SERVER": 1}, unwind=30, timeout=300,
                             group="c16/wsframe.c#laterecv", params={"case": "receiver arrives after fragments were parked", "parked": npk, "message_complete": bool(comp)}))
+    for mb in (0, 4, 8):
+        qs.append(Query("http-server-request-loop-maxbody%d" % mb, "c16/httpsrv.c", tus=["core/list.c", "core/strs.c"], env=WENV + ["env_msg.c"], defs={"MAXBODY": mb}, unwind=40, timeout=300,
+                        group="c16/httpsrv.c", params={"unit": "supplemental/http/http_server.c http_sconn_rxdone / _error / _txdone", "handler_body_limit": mb,
+                                                       "content_length": "absent or 0..9 (symbolic)", "method_uri_version_host": "good / bad variants (symbolic)"}))
     for npk in (1, 2):
         for ctrl in (1, 2):
             for clen in (0, 2):
